@@ -2708,7 +2708,11 @@ class sptensor:
         if isinstance(other, ttb.tensor):
             # Find where their zeros interact
             otherzerosubs, _ = (other == 0).find()
-            zzerosubs = otherzerosubs[(self[otherzerosubs] == 0).transpose()[0], :]
+            zzerosubs = np.empty(shape=(0, other.ndims), dtype=int)
+            if otherzerosubs.size > 0:
+                zzerosubs = otherzerosubs[
+                    (self.extract(otherzerosubs) == 0).transpose()[0], :
+                ]
 
             # Find where their nonzeros intersect
             znzsubs = np.empty(shape=(0, other.ndims), dtype=int)
